@@ -1,6 +1,7 @@
 from __future__ import annotations
 
 import os
+import re
 from pathlib import Path
 
 from fortls.constants import KEYWORD_ID_DICT, KEYWORD_LIST, FRegex, sort_keywords
@@ -26,8 +27,9 @@ def expand_name(line: str, char_pos: int) -> str:
     # WORD will capture substrings in logical and strings
     regexs = [
         FRegex.LOGICAL,
-        FRegex.SQ_STRING,
-        FRegex.DQ_STRING,
+        # Literals in one pass from the left: the one that opens first wins, an
+        # apostrophe inside a double-quoted literal does not open a literal
+        re.compile(f"{FRegex.SQ_STRING.pattern}|{FRegex.DQ_STRING.pattern}", re.I),
         FRegex.WORD,
         FRegex.NUMBER,
     ]
@@ -144,19 +146,16 @@ def strip_strings(in_line: str, maintain_len: bool = False) -> str:
         Stripped string
     """
 
-    def repl_sq(m):
-        return "'{}'".format(" " * (len(m.group()) - 2))
+    def repl(m):
+        quote = m.group()[0]
+        return quote + " " * (len(m.group()) - 2) + quote
 
-    def repl_dq(m):
-        return '"{}"'.format(" " * (len(m.group()) - 2))
-
-    if maintain_len:
-        out_line = FRegex.SQ_STRING.sub(repl_sq, in_line)
-        out_line = FRegex.DQ_STRING.sub(repl_dq, out_line)
-    else:
-        out_line = FRegex.SQ_STRING.sub("", in_line)
-        out_line = FRegex.DQ_STRING.sub("", out_line)
-    return out_line
+    # One pass from the left: the literal that opens first wins, an apostrophe
+    # inside a double-quoted literal (`"it's"`) does not open a literal
+    any_string = re.compile(
+        f"{FRegex.SQ_STRING.pattern}|{FRegex.DQ_STRING.pattern}", re.I
+    )
+    return any_string.sub(repl if maintain_len else "", in_line)
 
 
 def separate_def_list(test_str: str) -> list[str] | None:
